@@ -7,9 +7,11 @@ mod memtransport;
 mod meta;
 mod reply;
 mod xmltok;
+mod ser;
 mod sshserver;
 mod tlsserver;
 mod util;
+mod xmlstrict;
 
 use util::Opts;
 
@@ -43,6 +45,7 @@ fn main() {
         "fuzz" => fuzz::main(&opts),
         "meta" => meta::main(&opts),
         "daemon" => daemon::main(&opts),
+        "ser" => ser::main(&opts),
         _ => {
             eprintln!("unknown op {op}");
             std::process::exit(2);
